@@ -1,6 +1,7 @@
 package keeper
 
 import (
+	"bytes"
 	"context"
 	"errors"
 
@@ -155,4 +156,99 @@ func VH_C08_prepare(h *vrt.H) {
 		h.Assert(!pool.txs[id].valid, "only-invalid-transactions-are-evicted")
 	}
 	h.Reach("end")
+}
+
+// an engine with a chosen fault on each of the two proposer-side calls; arguments recorded
+type vhFaultyBuilder struct {
+	vhBuilderEngine
+	forkFault int // 0 none, 1 error, 2 INVALID, 3 SYNCING, 4 ACCEPTED, 5 VALID without a payload id
+	getFault  bool
+	state     *engine.ForkchoiceStateV1
+	attrs     *engine.PayloadAttributes
+}
+
+func (e *vhFaultyBuilder) ForkchoiceUpdatedV3(ctx context.Context, update *engine.ForkchoiceStateV1, attrs *engine.PayloadAttributes) (engine.ForkChoiceResponse, error) {
+	e.calls = append(e.calls, "ForkchoiceUpdatedV3")
+	e.state, e.attrs = update, attrs
+	if attrs != nil {
+		e.goatTxs = attrs.GoatTxs
+	}
+	id := engine.PayloadID{1}
+	switch e.forkFault {
+	case 1:
+		return engine.ForkChoiceResponse{}, errVh
+	case 2, 3, 4:
+		return engine.ForkChoiceResponse{PayloadStatus: engine.PayloadStatusV1{Status: vhStatuses[e.forkFault-1]}, PayloadID: &id}, nil
+	case 5:
+		return engine.ForkChoiceResponse{PayloadStatus: engine.PayloadStatusV1{Status: engine.VALID}}, nil
+	}
+	return engine.ForkChoiceResponse{PayloadStatus: engine.PayloadStatusV1{Status: engine.VALID}, PayloadID: &id}, nil
+}
+
+func (e *vhFaultyBuilder) GetPayloadV4(ctx context.Context, id engine.PayloadID) (*engine.ExecutionPayloadEnvelope, error) {
+	e.calls = append(e.calls, "GetPayloadV4")
+	if e.getFault {
+		return nil, errVh
+	}
+	return e.vhBuilderEngine.GetPayloadV4(ctx, id)
+}
+
+// VH_C09_propose_faults: while proposing, the engine is asked to build on exactly the recorded
+// head with the recorded beacon root, the proposer as fee recipient and the due system
+// transactions; a fault on either call (error, INVALID/SYNCING/ACCEPTED, no payload id, no
+// payload) makes the proposal fail - nothing is proposed on top of a faulty answer - and nothing
+// is written to the store.
+func VH_C09_propose_faults(h *vrt.H) {
+	priv, acc, txConfig := h.ProposerEnv()
+	eng := &vhFaultyBuilder{forkFault: h.Choose("forkchoiceFault", 0, 5), getFault: h.Choose("getPayloadFault", 0, 1) == 1}
+	nb, nl := h.Choose("bridgeDue", 0, 1), h.Choose("lockingDue", 0, 1)
+	b := &vhBitcoin{due: vhBridgeDue(h, nb, h.U64("bridgeNonce"))}
+	l := &vhLocking{due: vhLockingDue(h, nl, h.U64("lockingNonce"))}
+	k := NewKeeper(h.Codec(), h.AddressCodec(), h.StoreService(types.StoreKey), h.Logger(), b, l, &vhRelayerK{}, vhAccKeeper{acc: acc}, eng)
+	ctx := h.Ctx().WithChainID("goat-verif-1")
+	head := types.ExecutionPayload{BlockHash: h.Bytes("headHash", 32), BlockNumber: h.U64("headNumber"), ParentHash: h.Bytes("headParent", 32)}
+	h.Assume(head.BlockNumber < 1<<62)
+	beacon := h.Bytes("beaconRoot", 32)
+	vhMust(k.Block.Set(ctx, head))
+	vhMust(k.BeaconRoot.Set(ctx, beacon))
+	proposer := h.Bytes("proposerAddress", 20)
+	eng.parent, eng.number, eng.fee = head.BlockHash, head.BlockNumber+1, proposer
+	res, err := k.PrepareProposalHandler(&vhPool{}, vhPrepareVerifier{}, priv, txConfig)(ctx, &abci.RequestPrepareProposal{ProposerAddress: proposer, Height: 10})
+	h.NoteBool("proposed", err == nil)
+	fault := eng.forkFault != 0 || eng.getFault
+	h.Assert((err != nil) == fault, "proposal-fails-iff-the-engine-faults")
+	h.Assert(len(eng.calls) >= 1 && eng.calls[0] == "ForkchoiceUpdatedV3", "engine-is-first-asked-to-build")
+	if eng.forkFault != 0 {
+		h.Assert(len(eng.calls) == 1, "no-payload-is-fetched-after-a-faulty-fork-choice-answer")
+	} else {
+		h.Assert(len(eng.calls) == 2 && eng.calls[1] == "GetPayloadV4", "then-the-payload-is-fetched-once")
+	}
+	if eng.state != nil && eng.attrs != nil {
+		h.Assert(bytes.Equal(eng.state.HeadBlockHash.Bytes(), head.BlockHash), "engine-builds-on-the-recorded-head")
+		h.Assert(eng.attrs.BeaconRoot != nil && bytes.Equal(eng.attrs.BeaconRoot.Bytes(), beacon), "engine-builds-with-the-recorded-beacon-root")
+		h.Assert(bytes.Equal(eng.attrs.SuggestedFeeRecipient.Bytes(), proposer), "engine-builds-for-the-proposer")
+		h.Assert(len(eng.attrs.GoatTxs) == nb+nl, "engine-builds-with-the-due-system-transactions")
+		due := append(append([]*ethTxT{}, b.due...), l.due...)
+		for i, tx := range due {
+			raw, merr := tx.MarshalBinary()
+			vhMust(merr)
+			if i < len(eng.attrs.GoatTxs) {
+				h.Assert(bytes.Equal(eng.attrs.GoatTxs[i], raw), "engine-builds-with-the-due-system-transactions")
+			}
+		}
+	} else {
+		h.Assert(false, "engine-is-first-asked-to-build")
+	}
+	post, gerr := k.Block.Get(ctx)
+	vhMust(gerr)
+	root, rerr := k.BeaconRoot.Get(ctx)
+	vhMust(rerr)
+	h.Assert(bytes.Equal(post.BlockHash, head.BlockHash) && post.BlockNumber == head.BlockNumber && bytes.Equal(root, beacon), "proposing-writes-nothing")
+	h.Assert(b.requests == 0 && l.requests == 0, "proposing-forwards-no-requests")
+	if err == nil {
+		h.Assert(len(res.Txs) == 1 && len(res.Txs[0]) > 0, "proposal-is-the-block-transaction")
+		h.Reach("proposed")
+		return
+	}
+	h.Reach("refused")
 }
